@@ -65,7 +65,25 @@ def run_variant(v):
             src = open(p, encoding="utf-8").read()
             if src.count(old) < 1:
                 return v, "EDIT-FAILED", f"pattern not found in {rel}: {old[:50]!r}", 0.0
-            src = src.replace(old, new, 1) if not v.get("all") else src.replace(old, new)
+            if v.get("word") and rel.endswith(".py"):
+                # rename an identifier (variables and parameters, never attributes or keyword names) on the syntax tree
+                import ast as _ast
+                tree = _ast.parse(src)
+                hits = 0
+                for n in _ast.walk(tree):
+                    if isinstance(n, _ast.Name) and n.id == old:
+                        n.id = new
+                        hits += 1
+                    elif isinstance(n, _ast.arg) and n.arg == old:
+                        n.arg = new
+                        hits += 1
+                    elif isinstance(n, (_ast.Global, _ast.Nonlocal)):
+                        n.names = [new if x == old else x for x in n.names]
+                if hits == 0:
+                    return v, "EDIT-FAILED", f"identifier {old!r} not found in {rel}", 0.0
+                src = _ast.unparse(tree)
+            else:
+                src = src.replace(old, new, 1) if not v.get("all") else src.replace(old, new)
             open(p, "w", encoding="utf-8").write(src)
         # the variant must still be valid Python
         for rel, _o, _n in v["edits"]:
